@@ -78,6 +78,11 @@ pub mod storage;
 #[cfg(feature = "watch")]
 pub mod watch;
 
+/// Verification hooks — compiled only with the internal `__verif` feature.
+#[cfg(feature = "__verif")]
+#[doc(hidden)]
+pub mod verif_hooks;
+
 // ── User-facing public API ──────────────────────────────────────────────────
 pub use client::*;
 pub use command::*;
